@@ -73,6 +73,7 @@ class Cfg:
     tags: Tuple[str, ...] = ()
     quick: bool = True  # part of the quick tier
     instance_fields: Tuple[str, ...] = ()  # injected instance family: state fields identifying an instance
+    modeb: str = ""  # also explore in mode B with this base schedule ("first" | "last") even if not default-size
     n_instances: int = 0  # ... and how many distinct instances the generator's range has (all must be reached)
 
     def make(self) -> Any:
@@ -261,10 +262,10 @@ CATALOG: List[Cfg] = [
        time_limit=70, quick=False),
     # ---------------- MultiCVRP
     _c("mcvrp-6x2", "multi_cvrp", "MultiCVRP(G.multi_cvrp.UniformRandomGenerator(6, 2))", depth=3,
-       keys_quick=1, keys_thorough=3, horizon="12", max_states_quick=3000),
+       keys_quick=1, keys_thorough=3, horizon="12", max_states_quick=3000, modeb="last"),
     _c("mcvrp-6x2-sparse", "multi_cvrp", "MultiCVRP(G.multi_cvrp.UniformRandomGenerator(6, 2), "
        "reward_fn=R.multi_cvrp.SparseReward(2, 6, 10))", depth=2, kind="awkward", keys_quick=1,
-       keys_thorough=2, horizon="12", quick=False),
+       keys_thorough=2, horizon="12", quick=False, modeb="last"),
     # ---------------- PacMan
     _c("pacman-default", "pac_man", "PacMan()", kind="default", depth=5, keys_quick=1, keys_thorough=3,
        time_limit=1000),
